@@ -50,6 +50,12 @@ def remove_task(spec, tn):
     for sel in s.get("selections", []):
         if sel["id"] in used:
             used.update(sel["workers"])
+    for c in s["constraints"]:
+        if "resource" in c and c["resource"] not in used and c["kind"] == "WorkLoad" \
+                and (c.get("mode") or "max") in ("min", "exact") and any(b > 0 for _lo, _hi, b in c["map"]):
+            # a positive workload demanded from a resource that no remaining task uses: the problem without
+            # the task cannot even be declared (unassigned resource) - nothing to compare with
+            return None
     s["constraints"] = [c for c in s["constraints"] if "resource" not in c or c["resource"] in used]
     return s
 
@@ -177,6 +183,10 @@ def run_diff(case):
     spec, tn = case["spec"], case["task"]
     rng = random.Random(case.get("rng", 0))
     removed = remove_task(spec, tn)
+    if removed is None:
+        acc.empty_ok = True
+        acc.count(acc.outcomes, "not_comparable:workload_on_resource_left_unused")
+        return acc.result()
     mand = make_mandatory(spec, tn)
     feats = o_features(spec, tn)
     # side 1: unscheduled == deleted
